@@ -44,6 +44,7 @@ static FILE *report = NULL;
 static const char *dump_path = NULL;
 static long dump_every = 1, dump_off = 0, dump_max = 0, dumps_done = 0;
 static __thread long n_collect = 0;      /* per VM (= per thread) */
+static long n_user_safepoints = 0, sched_cap = 0;
 static long n_forced = 0, n_safepoints = 0, n_checked = 0, max_nodes = 0, n_findings = 0, n_opaque_coll = 0;
 /* worker threads (ev/thread, ev/do-thread): each has its own VM and heap.  The same schedule is applied to their safepoints
  * (own PRNG stream) and the same graph oracle runs at their collections; the oracle's tables are shared, so the midpoint
@@ -61,6 +62,7 @@ static uint64_t sm64(void) {
 }
 
 #include <pthread.h>
+#include <sys/resource.h>
 static pthread_t main_thread;
 static pthread_mutex_t hook_mu = PTHREAD_MUTEX_INITIALIZER;
 static int opt_workers = 1;           /* C01_WORKERS=0: worker threads keep the default schedule and are not checked */
@@ -72,6 +74,17 @@ static uint64_t w_sm64(void) {
     z = (z ^ (z >> 27)) * 0x94D049BB133111EBULL;
     return z ^ (z >> 31);
 }
+/* is the function on top of the current fiber's stack part of the program under test (source other than boot.janet)? */
+static int in_user_code(void) {
+    JanetFiber *f = janet_vm.fiber;
+    if (f && f->frame > 0) {
+        JanetFunction *fn = janet_fiber_frame(f)->func;
+        const uint8_t *src = (fn && fn->def) ? fn->def->source : NULL;
+        return !(src && janet_string_length(src) == 10 && !memcmp(src, "boot.janet", 10));
+    }
+    return 0;
+}
+
 static int safepoint_hook(void) {
     if (!pthread_equal(pthread_self(), main_thread)) {
         if (!opt_workers) return 0;
@@ -84,6 +97,7 @@ static int safepoint_hook(void) {
         int r = 0;
         if (sched_kind == 1) r = 1;
         else if (sched_kind == 2) r = (w_sm64() % sched_den) == 0;
+        else if (sched_kind == 3) r = in_user_code() || (w_sm64() % sched_den) == 0;
         if (r && !janet_vm.gc_suspend) __atomic_add_fetch(&w_forced, 1, __ATOMIC_RELAXED);
         return r;
     }
@@ -91,6 +105,18 @@ static int safepoint_hook(void) {
     int r = 0;
     if (sched_kind == 1) r = 1;
     else if (sched_kind == 2) r = (sm64() % sched_den) == 0;
+    else if (sched_kind == 3) {
+        /* stratified schedule `uN`: EVERY safepoint reached while a function of the program under test is running (its
+         * funcdef's source is not boot.janet), one in N of the safepoints inside the core library's own janet code
+         * (compiler, macro expansion, the repl loop: the same for every program, so sampling them loses nothing a
+         * run of another program does not see) */
+        int user = in_user_code();
+        if (user) {
+            n_user_safepoints++;
+            /* optional cap `uNcK`: beyond the first K safepoints in the program's own code (long loops) one in 4 */
+            r = (!sched_cap || n_user_safepoints <= sched_cap) ? 1 : (sm64() % 4) == 0;
+        } else r = (sm64() % sched_den) == 0;
+    }
     if (r && !janet_vm.gc_suspend) n_forced++;
     return r;
 }
@@ -1019,6 +1045,15 @@ static void midpoint_body(int worker) {
 
 static void at_exit_report(void) {
     if (!report) return;
+    {
+        /* CPU cost of this execution (user + system, all threads): the check adds it up per job class, so that the
+         * quick tier's budget is measured in CPU time and not in wall time, which depends on the load of the box */
+        struct rusage ru;
+        long ms = 0;
+        if (!getrusage(RUSAGE_SELF, &ru))
+            ms = (long)(ru.ru_utime.tv_sec + ru.ru_stime.tv_sec) * 1000 + (long)(ru.ru_utime.tv_usec + ru.ru_stime.tv_usec) / 1000;
+        fprintf(report, "SUMMARY cpu_ms=%ld user_safepoints=%ld\n", ms, n_user_safepoints);
+    }
     fprintf(report, "SUMMARY collections=%ld forced=%ld safepoints=%ld checked=%ld max_nodes=%ld nodes=%ld edges=%ld freed=%ld findings=%ld opaque_collections=%ld dumps=%ld pending_streams=%ld"
             " sym_probes=%ld sym_wrapped=%ld sym_through_tomb=%ld sym_freed=%ld sym_last_freed=%ld sym_last_freed_chain=%ld sym_cap_max=%ld sym_count_max=%ld sym_skipped=%ld"
             " worker_threads=%ld worker_safepoints=%ld worker_forced=%ld worker_collections=%ld worker_checked=%ld worker_findings=%ld\n",
@@ -1035,6 +1070,13 @@ int main(int argc, char **argv) {
     const char *s = getenv("C01_SCHED");
     if (s) {
         if (!strcmp(s, "always")) sched_kind = 1;
+        else if (s[0] == 'u') {
+            char *e = NULL;
+            sched_kind = 3;
+            sched_den = strtoull(s + 1, &e, 10);
+            if (!sched_den) sched_den = 1;
+            if (e && *e == 'c') sched_cap = strtol(e + 1, NULL, 10);
+        }
         else if (s[0] == 'p') { sched_kind = 2; sched_den = strtoull(s + 1, NULL, 10); if (!sched_den) sched_den = 1; }
     }
     if ((s = getenv("C01_SEED"))) rng_state = strtoull(s, NULL, 10);
